@@ -2,7 +2,7 @@
    Remote.uploadProfile (pkg/agent/upstream/remote/remote.go).  Definitions only.
    URL coding of query values is taken as the identity (url.Values.Encode / URL.Query). *)
 From Coq Require Import Ascii.
-From Pyro Require Export Model.Base Model.TextFormats.
+From Pyro Require Export Model.Base Model.Tree Model.Varint Model.TTrie Model.TextFormats.
 
 Local Open Scope N_scope.
 
@@ -88,3 +88,23 @@ Definition upload_query (j : upload_job) : query :=
     (ascii "units", j_units j);
     (ascii "aggregationType", j_aggregation j) ].
 Definition upload_content_type : bytes := ct_trie.
+
+(* ---- the profile tree the handler builds from a request body (wrapConvertFunction) ---------------- *)
+(* inserting a multiset of (stack, count) directly: the profile itself *)
+Definition profile_of (ms : list (bytes * N)) : tnode :=
+  fold_left (fun t kv => t_insert (fst kv) (snd kv) t) ms t_empty.
+
+Definition tree_via_groups (body : bytes) : option tnode :=
+  let (r, ok) := parse_groups body in
+  if ok then Some (fold_left (fun t kv => t_insert (fst kv) (to_uint64 (snd kv)) t) r t_empty) else None.
+Definition tree_via_lines (body : bytes) : option tnode :=
+  let (r, ok) := parse_lines body in
+  if ok then Some (profile_of r) else None.
+(* convert.ParseTrie: Deserialize, then Iterate; int(val) and back to uint64 is the identity *)
+Definition tree_via_trie (body : bytes) : option tnode :=
+  match tt_deserialize body with
+  | Some t => Some (profile_of (tt_iterate t))
+  | None => None
+  end.
+(* what the agent's uploader sends for a multiset of samples *)
+Definition trie_body (ms : list (bytes * N)) : bytes := tt_serialize 1 1 (tt_of_multiset ms).
